@@ -212,6 +212,8 @@ def cost_family(cid):
         return ("chi2", "cov-nodet")
     if cid == "chi2:axes_y":  # XYCostFunction_Chi2(axes_to_use="y"): covariance of the y sources only (chosen by the caller)
         return ("chi2", "cov")
+    if cid == "gauss_approximation:nodet":  # a *CostFunction_GaussApproximation OBJECT built with add_determinant_cost=False
+        return ("ga", "cov-nodet")
     if cid in _CHI2_COV or cid in _CHI2_COV_FAST:
         return ("chi2", "cov")
     if cid in ("chi2_pointwise", "chi2_pointwise_errors"):
@@ -274,6 +276,9 @@ def core_cost(cid, d, m, V, implicit_no_errors=False):
             c += float(np.sum(np.log(2.0 * np.pi * s2)))
         return c, 0.0
     if fam == "ga":
+        if var == "cov-nodet":  # (d-m)^T (V + diag(m))^-1 (d-m), no ln det term
+            W = V + np.diag(m)
+            return float(r.dot(np.linalg.inv(W)).dot(r)), 0.0
         if var == "cov":
             W = V + np.diag(m)
             sign, logdet = np.linalg.slogdet(W)
